@@ -1343,6 +1343,10 @@ class UnitQuaternion(Quaternion):
         v = base.getvector(v, 3)
         base.isscalar(theta)
         theta = base.getunit(theta, unit)
+        if np.linalg.norm(v) < 10 * _eps:
+            # zero axis: identity rotation, as angvec2r
+            return cls()
+        v = base.unitvec(v)
         return cls(s=math.cos(theta / 2), v=math.sin(theta / 2) * v, norm=False, check=False)
 
     @classmethod
